@@ -11,12 +11,14 @@ From Coq Require Import NArith.
 (* ------------------------------------------------------------------ quirks *)
 (* true = "do what the code does", false = "do what the property demands". *)
 Record cquirks := {
-  q_missing_by_raw_key  : bool;  (* a section is "missing" when its hyphenated name is not literally a top-level key
-                                    (the loaders treat `magic_numbers` and `magic-numbers` as the same key) *)
+  q_missing_by_raw_key  : bool;  (* the "is this section missing" test is the one found in the source: originally the hyphenated
+                                    name had to be literally a top-level key (the loaders treat `magic_numbers` and
+                                    `magic-numbers` as the same key); Gen.missing_by_normalised_key records the repair *)
   q_append_to_flow_root : bool;  (* block-style text is spliced into a file whose root mapping is in flow style *)
   q_insert_mid_entry    : bool;  (* sections are inserted at the GLOBAL SETTINGS marker even when the marker comment
                                     stands inside an entry (or before the `---` line) *)
-  q_cli_raw_key         : bool;  (* `config set/get` use the key as typed although loading normalises file keys *)
+  q_cli_raw_key         : bool;  (* `config set/get` treat the key as the source does: originally as typed although loading normalises
+                                    file keys; Gen.set_normalises_key / get_normalises_key record the repair *)
 }.
 Definition ideal : cquirks := Build_cquirks false false false false.
 
@@ -319,8 +321,11 @@ Inductive init_result :=
 | AlreadyComplete                             (* exit 0, file untouched *)
 | Merged (names : list string) (R : list string).   (* exit 0, file rewritten *)
 
+(* the membership test of identify_missing_sections: with the flag on it is the test found in the source (literal keys in
+   the original code, normalised keys since the repair), with the flag off the normalised test the property demands *)
+Definition raw_missing_test (q : cquirks) : bool := q_missing_by_raw_key q && negb missing_by_normalised_key.
 Definition present (q : cquirks) (keys : list string) (n : string) : bool :=
-  if q_missing_by_raw_key q then smem n keys else smem (norm n) (map norm keys).
+  if raw_missing_test q then smem n keys else smem (norm n) (map norm keys).
 
 Definition init_from (q : cquirks) (secs : list (string * list string)) (E : list string) (rE : root) : init_result :=
   let go (keys : list string) (isblock : bool) :=
